@@ -273,17 +273,40 @@ def body_grid(ctx):
 SUP_CATS = [c for c in CATS if c is not None] + ['parser', 'verifier', 'analyzer', 'Style', 'zzz', 'Analyzer', 'PARSER', 'Verifier']
 
 
+# labels in other scripts (lower(), casefold() and upper() disagree on some of them)
+SUP_LABELS = ['La', 'falsche_gr\u00f6\u00dfe', '\u03bb\u03ac\u03b8\u03bf\u03c2', '\ufb01le_size', 'tama\u00f1o', '\u540d\u524d_error']
+FILLERS = [dict(category='instructor'), dict(category='specification'), dict(category='instructor', activate=False),
+           dict(category='syntax', muted=True), dict(via='compliment')]
+LARGE_RANKS = [dict(category='instructor'), dict(category='instructor', priority='high'), dict(category='instructor', priority='low'),
+               dict(category='mistakes'), dict(category='specification'), dict(category='runtime', priority='highest'),
+               dict(category='student', priority='lowest'), dict(category='syntax')]
+LARGE_N = [19, 20, 21, 99, 100, 101, 130]
+
+
+def body_large(ctx):
+    """Two ranked feedbacks with many others created between them: what is shown does not depend on how many."""
+    d1 = LARGE_RANKS[ctx.choose(len(LARGE_RANKS), 'first')]
+    d2 = LARGE_RANKS[ctx.choose(len(LARGE_RANKS), 'last')]
+    fill = FILLERS[ctx.choose(len(FILLERS), 'filler')]
+    n = LARGE_N[ctx.choose(len(LARGE_N), 'how-many-between')]
+    cmds.clear_report()
+    ctx.step(('create', d1, n, fill, d2))
+    fbs = [_mk(d1, 0)] + [_mk(fill, k + 1) for k in range(n)] + [_mk(d2, n + 1)]
+    _judge(ctx, fbs, [], {'first': d1, 'between': '%d x %r' % (n, fill), 'last': d2, 'suppressions': []})
+
+
 def body_category_suppression(ctx):
     """One feedback of every category against a suppression of every category name (and every documented alias):
     exactly the feedback of that category is hidden."""
     a = CATS[ctx.choose(len(CATS), 'cat1')]
     b = CATS[ctx.choose(len(CATS), 'cat2')]
     sc = SUP_CATS[ctx.choose(len(SUP_CATS), 'suppressed-category')]
-    form = ctx.choose(2, 'with-label')
+    form = ctx.choose(3, 'with-label')          # category only | label as spelled | label capitalised
+    la = SUP_LABELS[ctx.choose(len(SUP_LABELS), 'label')]
     cmds.clear_report()
-    d1, d2 = dict(category=a, label='La'), dict(category=b, label='Lb')
+    d1, d2 = dict(category=a, label=la), dict(category=b, label='Lb')
     fbs = [_mk(d1, 0), _mk(d2, 1)]
-    sups = [(sc, 'La' if form else True, None)]
+    sups = [(sc, True if form == 0 else la if form == 1 else la[0].upper() + la[1:], None)]
     ctx.step(('suppress', sups))
     _apply_sups(sups)
     _judge(ctx, fbs, sups, {'feedbacks': [d1, d2], 'suppressions': sups})
@@ -368,6 +391,8 @@ def phases(tier):
               describe='all creation sequences x suppression sets x placement'),
         Phase('category-suppression', body_category_suppression, setup=_setup,
               describe='feedback of every category pair x suppression of every category name and alias'),
+        Phase('large-reports', body_large, setup=_setup, chunk=20,
+              describe='two ranked feedbacks with 19..130 other feedbacks created between them'),
         Phase('own-report', make_private_report(alpha), setup=_setup,
               describe='sequences <=2 on a caller-owned Report passed to every call (decoy on the global report)'),
     ]
